@@ -384,6 +384,14 @@ Plan gen_mt_plan(const std::string &, Rng &rng, long long, const std::string &ti
       // or one of the families; different tasks get different sets, so that state keyed on part of a definition shows
       t.proj = random_macro_project(rng, rng.chance(7, 10));
     }
+    else if (k > 0 && variant == 5 && p.tasks[0].proj.files.size() > 1) {
+      // the first task's project asked for through one of its included files, which is not supplied: a compile that ends at
+      // "main file not found" must leave nothing behind for the thread's next compile that includes that file
+      t.proj = p.tasks[0].proj;
+      for (auto it = t.proj.files.begin(); it != t.proj.files.end(); ++it)
+        if (it->first != t.proj.main) { t.proj.main = it->first; t.proj.files.erase(it); break; }
+      t.proj.has_ast = false;
+    }
     else if (k > 0 && variant < 5 && p.tasks[0].proj.has_ast) {
       t.proj = p.tasks[0].proj;
       if (variant < 2) { t.proj.layout.seed = rng.next(); t.proj.layout.style = (int)rng.below(2); t.proj.layout.nfiles = (int)rng.range(1, 3); render(t.proj); }   // same AST, other layout
